@@ -63,6 +63,25 @@ func c09ValidNTS(hdr []byte, prov *ntske.Provider) []byte {
 	return buf
 }
 
+// c09ValidNTSOfLength: a correctly sealed request (one cookie of this project's server, no
+// placeholders) whose unique identifier is as long as it takes to reach total bytes.
+func c09ValidNTSOfLength(hdr []byte, prov *ntske.Provider, total int) []byte {
+	c2s, s2c := make([]byte, 32), make([]byte, 32)
+	rand.Read(c2s)
+	rand.Read(s2c)
+	key := prov.Current()
+	sc := ntske.ServerCookie{Algo: ntske.AES_SIV_CMAC_256, C2S: c2s, S2C: s2c}
+	ec, _ := sc.EncryptWithNonce(key.Value, key.ID)
+	c08UIDLen = 32
+	base := len(c08RawNTSRequest(hdr, ec.Encode(), 0, c2s))
+	c08UIDLen = 32 + (total-base)/4*4
+	defer func() { c08UIDLen = 32 }()
+	if c08UIDLen < 32 {
+		c08UIDLen = 32
+	}
+	return c08RawNTSRequest(hdr, ec.Encode(), 0, c2s)
+}
+
 // c09Expect is the statement's predicate.
 func c09Expect(p []byte, trailerValid bool) int {
 	if len(p) < 48 {
@@ -171,6 +190,7 @@ func c09World(t *testing.T, r *simcore.Run) any {
 		return net.NewDatagram(netip.AddrPortFrom(netip.MustParseAddr(srcIP), srcPort), srvAddr, payload, note)
 	}
 	var cases []c09Case
+	padTo := 0
 	mk := func(first byte, length int, trailer string) c09Case {
 		c := c09Case{first: first, length: length, trailer: trailer}
 		hdr := make([]byte, 48)
@@ -183,6 +203,13 @@ func c09World(t *testing.T, r *simcore.Run) any {
 			c.trailer = "none"
 		case trailer == "nts-valid" || trailer == "nts-bitflip":
 			c.payload = c09ValidNTS(hdr, prov)
+			if padTo > 0 && trailer == "nts-valid" {
+				// a valid request of a chosen total length (the unique identifier takes up the
+				// slack), up to exactly the size of the listener's receive buffer
+				c.payload = c09ValidNTSOfLength(hdr, prov, padTo)
+				c.length = len(c.payload)
+				c.note = fmt.Sprintf("valid NTS request of %d bytes", len(c.payload))
+			}
 			valid = true
 			if trailer == "nts-bitflip" {
 				// flip one bit somewhere after the header: no longer a valid NTS request
@@ -231,6 +258,14 @@ func c09World(t *testing.T, r *simcore.Run) any {
 			length := c09Lengths[tp.Intn(len(c09Lengths), "len")]
 			if tp.Bool(1, 4, "rlen") {
 				length = tp.Intn(2049, "rlen2")
+			}
+			padTo = 0
+			if !overSCION && tp.Bool(1, 12, "nts-of-length") {
+				padTo = []int{2048, 2044, 2040, 1280, 1284, 1400}[tp.Intn(6, "ntslen")]
+				cases = append(cases, mk(0x23, padTo, "nts-valid"))
+				padTo = 0
+				r.Probe("valid-nts-request-of-chosen-length")
+				continue
 			}
 			cases = append(cases, mk(first, length, c09Trailers[tp.Intn(len(c09Trailers), "trailer")]))
 		}
